@@ -2,6 +2,7 @@
 correspondence components to run).  See DESIGN.md §6."""
 
 import os, re
+_REPO = os.environ.get("VERIF_REPO", "/repo")
 _LEAN = os.path.join(os.path.dirname(os.path.abspath(__file__)), "..", "lean")
 
 def conform(*mods):
@@ -230,7 +231,7 @@ def c11_race_search(cx):
     err = p.stderr
     pairs = re.findall(r"^PAIR (.*)$", err, re.M)
     blocks = re.split(r"(?==+\nWARNING: DATA RACE)", err)
-    races = [b for b in blocks if "WARNING: DATA RACE" in b and "/repo/" in b]
+    races = [b for b in blocks if "WARNING: DATA RACE" in b and (_REPO + "/") in b]
     stuck = re.findall(r"^STUCK (.*)$", err, re.M)
     cx.cov["evaluations"] += len(pairs)
     cx.cov["distinct_nontrivial"] += len(set(pairs))
@@ -242,7 +243,7 @@ def c11_race_search(cx):
                     "distinct = distinct pair")
     seen = set()
     for b in races:
-        frames = re.findall(r"go-bigbuff\.([^\s]+)\n\s+(/repo/[^\s]+)", b)
+        frames = re.findall(r"go-bigbuff\.([^\s]+)\n\s+(" + re.escape(_REPO) + r"/[^\s]+)", b)
         sig = tuple(sorted(set(f[1].split(" ")[0] for f in frames)))[:4]
         if sig in seen:
             continue
